@@ -133,7 +133,9 @@ def merge(results: list[dict[str, Any]]) -> dict[str, Any]:
     samples: list[Any] = []
     notes: list[str] = []
     by_mode: Counter = Counter()
+    reached: set[str] = set()
     for r in results:
+        reached.update(r.get('reached', []))
         for k, v in r.get('counters', {}).items():
             c = counters.setdefault(k, {'evaluated': 0, 'violated': 0, 'skipped': Counter()})
             c['evaluated'] += v['evaluated']
@@ -150,7 +152,7 @@ def merge(results: list[dict[str, Any]]) -> dict[str, Any]:
                 samples.append(s)
         notes += r.get('notes', [])[:3]
     return {'counters': counters, 'hist': hist, 'cases': cases, 'violations': violations,
-            'samples': samples, 'notes': notes[:12], 'by_mode': dict(by_mode)}
+            'samples': samples, 'notes': notes[:12], 'by_mode': dict(by_mode), 'reached': reached}
 
 
 def classify(prop: str, violations: list[dict[str, Any]]) -> tuple[dict[str, list], dict[str, list]]:
@@ -220,6 +222,12 @@ def check(prop: str, tier: str, seed: int, replay: str | None = None) -> int:
             if missing:
                 inconclusive.append(f'{req_hist}: never observed {missing}')
 
+    anchors = {}
+    for pat in cfg.get('anchors', []):
+        hits = [f for f in m['reached'] if fnmatch.fnmatchcase(f, pat)]
+        anchors[pat] = len(hits)
+        if not hits and not replay:
+            inconclusive.append(f'anchored function {pat} was never executed by the workload')
     distinct = sum(1 for v in m['cases'].values() if v)
     wall = time.time() - t0
     ev = {
@@ -239,6 +247,9 @@ def check(prop: str, tier: str, seed: int, replay: str | None = None) -> int:
                              'skipped': dict(v['skipped'])} for k, v in sorted(m['counters'].items())},
             'histograms': {k: dict(Counter(v).most_common(60)) for k, v in sorted(m['hist'].items())},
             'evaluations_by_mode': m['by_mode'],
+            'anchored_functions_reached': anchors,
+            'library_functions_executed': len(m['reached']),
+            'library_functions_executed_list': sorted(m['reached']),
             'workers': len(results),
             'verdict': 'violated' if new else ('inconclusive' if inconclusive else 'held-on-observed'),
             'inconclusive_reasons': inconclusive,
